@@ -12,6 +12,22 @@ run(ctx):
   4. correspondence: the Coq model (coq/Model/Weights.v, binary64 instance) is evaluated by vm_compute on the
      implementation's own neighbour info and weight tables and compared with the implementation's output
      (masks and counts exactly; values bit for bit, or within twice the stated bound).
+
+Stated bounds (u = 2^-53, k = number of slots, sums over the neighbours in range, weights w >= 0 as evaluated in binary64):
+  value:   |impl - S/N| <= B = 4(k+2)u * sum|w x| / sum w + 1e-300   [gauss: + 4 eps * sum|w x|/sum w, eps = max 16u(1+d^2/sigma^2),
+           the evaluation error allowed for exp(-d^2/sigma^2)];  k = 1: exact.
+  stddev:  |impl - sqrt(A T)| <= E, A = V1/(V1^2-V2), T = sum w (x-mean)^2, with
+           e_i = B + u(|x_i|+|mean|+B), E_T = sum w_i e_i (2|x_i-mean| + e_i) + 2(k+3)u sum w_i (|x_i-mean|+e_i)^2,
+           relA = 2 errD/D + 4(k+2)u, errD = 2(k+3)u (V1^2+V2), E_var = A E_T (1+relA) + (relA+4u) A T,
+           E = 2 min(sqrt(E_var), E_var/sqrt(A T)) + 4u sqrt(A T) + 1e-300; cells with errD >= D/4 are ill-conditioned and,
+           like cells with sum w < 1e-290 (subnormal weights) or non-finite neighbour data, are left unconstrained by the oracle.
+  The Coq comparison accepts 2B / 2E (implementation and binary64 model are both within B / E of the exact value).
+Unconstrained by the property (accepted either way by the oracle, still compared bit for bit with the model):
+  a masked neighbour in range whose weight is 0 (code: does not mask); count in {neighbours in range, neighbours with w != 0}
+  (code: neighbours in range); stddev where >= 2 neighbours are in range but at most one has non-zero weight (0/0 or x/0).
+Attribution keys: C04.neighbour_info.*, C04.weights, C04.mean, C04.mean.missing_slot_leak, C04.fill, C04.mask, C04.count[.k1|.mask],
+  C04.stddev[.undefined|.mask], C04.uncert.return[.empty], C04.shape, C04.error.<Exception>.
+Not translated by py2coq: the anchored functions are numpy array loops, not loop-free scalar code; the tie is the correspondence.
 """
 import math
 import struct
@@ -615,6 +631,11 @@ class Judge:
                     Evar = Af * ET * (1 + relA) + relA * varf + 4 * U * varf
                     E = math.sqrt(Evar) if varf <= 0 else min(math.sqrt(Evar), Evar / math.sqrt(varf))
                     E = 2 * E + 4 * U * math.sqrt(max(varf, 0.0)) + TINY
+                    if c["mode"] == "gauss":
+                        # the weights themselves are only known up to the evaluation error of exp(-d^2/sigma^2)
+                        s_ = unhex(c["sigmas"][j])
+                        kappa = float((v1 * v1 + v2) / D)
+                        E += 8 * max(gauss_eps(s_, d) for _, _, _, d in pres) * (1 + kappa) * math.sqrt(max(varf, 0.0))
                     tols = 2 * E
                     self.stat("cells_sd")
                     if sdm:
@@ -675,6 +696,7 @@ def run(ctx):
         kind = "%s/%s" % (c["mode"], "k1" if c["k"] == 1 else "k>1")
         ctx.count(kind)
         ctx.count("stream:" + c["stream"])
+        ctx.count("k=%d" % c["k"])
         ctx.count("dtype:" + c["dtype"])
         if c["mask"] is not None:
             ctx.count("masked_input")
